@@ -13,6 +13,15 @@
 using namespace muduo;
 using namespace muduo::net;
 
+namespace
+{
+// CTL = %x00-1F / %x7F
+bool isControl(char c)
+{
+  return static_cast<unsigned char>(c) < 0x20 || c == 0x7f;
+}
+}  // namespace
+
 bool HttpContext::processRequestLine(const char* begin, const char* end)
 {
   bool succeed = false;
@@ -22,9 +31,11 @@ bool HttpContext::processRequestLine(const char* begin, const char* end)
   {
     start = space+1;
     space = std::find(start, end, ' ');
-    if (space != end)
+    const char* question = std::find(start, space, '?');
+    // the request-target has a non-empty path and no control characters
+    if (space != end && question != start
+        && std::find_if(start, space, isControl) == space)
     {
-      const char* question = std::find(start, space, '?');
       if (question != space)
       {
         request_.setPath(start, question);
